@@ -3,3 +3,4 @@ import FlowCalDriver.Text
 import FlowCalDriver.File
 import FlowCalDriver.Index
 import FlowCalDriver.Pickle
+import FlowCalDriver.Heap
